@@ -90,6 +90,12 @@ impl<S: LexemeSink> StateMachineActions for Lexer<S> {
         // (except for CDATA, but there is a special action to take care of it).
         self.set_last_text_type(TextType::Data);
 
+        // NOTE: an integration point element (e.g. `<desc>` in SVG) belongs to the foreign
+        // namespace itself, only its content is in the HTML namespace. Entering it is the
+        // only deferred feedback that makes the namespace stack deeper.
+        let ns_before = context.tree_builder_simulator.current_ns();
+        let ns_depth_before = context.tree_builder_simulator.ns_depth();
+
         if let Some(feedback) = feedback {
             self.handle_tree_builder_feedback(context, feedback, &lexeme);
         }
@@ -101,7 +107,11 @@ impl<S: LexemeSink> StateMachineActions for Lexer<S> {
         } = lexeme.token_outline
         {
             self.last_start_tag_name_hash = name_hash;
-            *ns = context.tree_builder_simulator.current_ns();
+            *ns = if context.tree_builder_simulator.ns_depth() > ns_depth_before {
+                ns_before
+            } else {
+                context.tree_builder_simulator.current_ns()
+            };
         }
 
         match self.emit_tag_lexeme(context, &lexeme)? {
